@@ -400,6 +400,133 @@ fn main() {
             }
             println!("{{\"delay_us\": {}, \"latency_us\": {:?}}}", delay.as_micros(), lat);
         }
+        // two_loops <trials>: two event loops. A task reads one byte from a socket (its loop registers read interest with its
+        // epoll instance); afterwards a second task that runs on the OTHER loop blocks in a hooked recv on the same socket.
+        // While it is blocked the epoll instances of the process are inspected through /proc/self/fdinfo: prints which epoll
+        // descriptors hold the socket, the threads the two tasks ran on, and the wake-up latency of the second task for a
+        // byte written 2 ms after it blocked (readiness wake ~2 ms, slice-timeout wake ~10 ms).
+        "two_loops" => {
+            use std::sync::atomic::{AtomicU64, Ordering};
+            use std::sync::Mutex;
+            static STARTED: AtomicU64 = AtomicU64::new(0);
+            static DONE: AtomicU64 = AtomicU64::new(0);
+            static NAMES: Mutex<Vec<String>> = Mutex::new(Vec::new());
+            let mut cfg = open_coroutine_core::config::Config::single();
+            cfg.set_hook(false);
+            cfg.set_event_loop_size(2);
+            open_coroutine_core::net::EventLoops::init(&cfg);
+            let epolls_with = |fd: c_int| -> Vec<i32> {
+                let mut v = Vec::new();
+                for e in std::fs::read_dir("/proc/self/fd").unwrap().flatten() {
+                    let n: i32 = e.file_name().to_string_lossy().parse().unwrap_or(-1);
+                    let link = std::fs::read_link(e.path()).map(|p| p.to_string_lossy().into_owned()).unwrap_or_default();
+                    if link.contains("eventpoll") {
+                        let info = std::fs::read_to_string(format!("/proc/self/fdinfo/{n}")).unwrap_or_default();
+                        if info.lines().any(|l| l.split_whitespace().nth(1) == Some(&fd.to_string()) && l.starts_with("tfd:")) {
+                            v.push(n);
+                        }
+                    }
+                }
+                v.sort_unstable();
+                v
+            };
+            let trials = num(2) as usize;
+            let mut results = Vec::new();
+            for _ in 0..trials {
+                let (fd, peer) = socketpair(true);
+                let mut run_task = |delay_us: u64| -> (String, usize, Vec<i32>) {
+                    STARTED.store(0, Ordering::SeqCst);
+                    DONE.store(0, Ordering::SeqCst);
+                    let _h = open_coroutine_core::net::EventLoops::submit_task(
+                        None,
+                        move |_| {
+                            NAMES.lock().unwrap().push(std::thread::current().name().unwrap_or("?").to_string());
+                            let mut b = [0u8; 1];
+                            let t0 = Instant::now();
+                            STARTED.store(1, Ordering::SeqCst);
+                            let r = syscall::recv(None, fd, b.as_mut_ptr().cast(), 1, 0);
+                            assert_eq!(r, 1);
+                            if std::env::var("OCV_TRACE").is_ok() { eprintln!("task done on {:?} after {:?}", std::thread::current().name(), t0.elapsed()); }
+                            // (the JoinHandle is not used to collect the result: a task run by another event loop than the one it
+                            // was submitted to is not found by join - C02 - which is not what this case is about)
+                            DONE.store(t0.elapsed().as_micros() as u64 + 1, Ordering::SeqCst);
+                            None
+                        },
+                        None,
+                        None,
+                    );
+                    while STARTED.load(Ordering::SeqCst) == 0 {
+                        std::thread::yield_now();
+                    }
+                    std::thread::sleep(std::time::Duration::from_micros(delay_us));
+                    let holders = epolls_with(fd);
+                    if std::env::var("OCV_TRACE").is_ok() { eprintln!("task started; epolls holding fd {fd}: {holders:?}"); }
+                    assert_eq!(1, unsafe { libc::write(peer, [7u8].as_ptr().cast(), 1) });
+                    let t_wait = Instant::now();
+                    while DONE.load(Ordering::SeqCst) == 0 && t_wait.elapsed().as_secs() < 5 {
+                        std::thread::yield_now();
+                    }
+                    let lat = DONE.load(Ordering::SeqCst).saturating_sub(1) as usize;
+                    let name = NAMES.lock().unwrap().pop().unwrap_or_default();
+                    (name, lat, holders)
+                };
+                // first task, then tasks until one runs on a different event-loop thread (round robin / stealing decide)
+                let (n1, _l1, h1) = run_task(2000);
+                let mut second = None;
+                for _ in 0..8 {
+                    let (n2, l2, h2) = run_task(2000);
+                    if n2 != n1 {
+                        second = Some((n2, l2, h2));
+                        break;
+                    }
+                }
+                assert_eq!(0, syscall::close(None, fd));
+                unsafe { libc::close(peer); }
+                if let Some((n2, l2, h2)) = second {
+                    results.push(format!(
+                        "{{\"first_thread\": \"{n1}\", \"epolls_after_first\": {h1:?}, \"second_thread\": \"{n2}\", \"epolls_while_second_waits\": {h2:?}, \"second_latency_us\": {l2}}}"
+                    ));
+                }
+            }
+            println!("{{\"trials\": [{}]}}", results.join(","));
+        }
+        // ws_len_race <ordered 0|1> <runs> <threads> <per_thread>: threads push concurrently to the SHARED queue; afterwards
+        // (all threads joined) the reported length is compared with the pushes made and with what a drain returns.
+        "ws_len_race" => {
+            // the queue types are shared between threads by the runtime through raw 'static references (BeanFactory); the
+            // shared-queue operations used here only touch the Injector(s) and the atomic counter
+            struct Shared<T>(T);
+            unsafe impl<T> Sync for Shared<T> {}
+            unsafe impl<T> Send for Shared<T> {}
+            let ordered = num(2) != 0;
+            let (runs, threads, per) = (num(3) as usize, num(4) as usize, num(5) as usize);
+            let mut bad = Vec::new();
+            for run in 0..runs {
+                let (reported, drained) = if ordered {
+                    let q = std::sync::Arc::new(Shared(open_coroutine_core::common::ordered_work_steal::OrderedWorkStealQueue::<usize>::new(1, 4)));
+                    let hs: Vec<_> = (0..threads).map(|t| { let q = q.clone(); std::thread::spawn(move || { let q = &*q; for i in 0..per { q.0.push_with_priority((i % 2) as i64, t * per + i); } }) }).collect();
+                    for h in hs { h.join().unwrap(); }
+                    let reported = q.0.len();
+                    let mut n = 0;
+                    while q.0.pop().is_some() { n += 1; }
+                    (reported, n)
+                } else {
+                    let q = std::sync::Arc::new(Shared(open_coroutine_core::common::work_steal::WorkStealQueue::<usize>::new(1, 4)));
+                    let hs: Vec<_> = (0..threads).map(|t| { let q = q.clone(); std::thread::spawn(move || { let q = &*q; for i in 0..per { q.0.push(t * per + i); } }) }).collect();
+                    for h in hs { h.join().unwrap(); }
+                    let reported = q.0.len();
+                    let mut n = 0;
+                    while q.0.pop().is_some() { n += 1; }
+                    (reported, n)
+                };
+                if reported != threads * per || drained != threads * per {
+                    bad.push(format!("{{\"run\": {run}, \"pushed\": {}, \"reported_len\": {reported}, \"drained_by_pop\": {drained}}}", threads * per));
+                }
+            }
+            println!("{{\"runs\": {runs}, \"bad\": [{}]}}", bad.join(","));
+            // items stranded behind a stale length make the queue's Drop assertion fire: leave without running destructors
+            std::process::exit(0);
+        }
         // local_drop <n>: store n values with a counting destructor in a coroutine-local, drop the local
         "local_drop" => {
             use std::sync::atomic::{AtomicUsize, Ordering};
